@@ -133,7 +133,8 @@ def obsSx (st : Status) (out : List Reply) (tail rest seen : Bytes)
     (calls : List (String × String × Request)) (ref : Sx) : Sx :=
   .list [.atom "obs", ofStatus st, .list (.atom "out" :: out.map ofReply),
          bytesAtom tail, bytesAtom rest, bytesAtom seen,
-         .list (.atom "calls" :: calls.map fun (n, d, r) => .list [strAtom n, strAtom d, ofRequest r]),
+         .list (.atom "calls" :: calls.map fun (n, d, r) => .list [strAtom n, strAtom d, ofRequest r,
+            .list [.atom "api", ofBool (wantsMore r), ofBool (isOneway r)]]),
          ref]
 
 def bufCap : Nat := 8192
@@ -199,12 +200,14 @@ def parseReplies (l : List Sx) : List Reply × Bool :=
       | _, _, _ => (acc.1, true)
     | _ => (acc.1, true)) ([], false)
 
-def parseCall : Sx → Option (String × String × Request)
-  | .list [n, d, r] => do
+def parseCall : Sx → Option ((String × String × Request) × (Bool × Bool))
+  | .list [n, d, r, .list [.atom "api", m, ow]] => do
     let n ← asStr n
     let d ← asStr d
+    let m ← asBool m
+    let ow ← asBool ow
     match ← parseReq r with
-    | .req r => pure (n, d, r)
+    | .req r => pure ((n, d, r), (m, ow))
     | .bad => none
   | _ => none
 
@@ -222,7 +225,7 @@ def parseObs : Sx → Option WireObs
     let (ro, _) := parseReplies rout
     let rtail ← asBytes rtail
     let rrest ← asBytes rrest
-    pure { status := st, out := o, rawOut := raw, tail, rest, seen, calls,
+    pure { status := st, out := o, rawOut := raw, tail, rest, seen, calls := calls.map (·.1), callApi := calls.map (·.2),
            refStatus := rst, refOut := ro, refTail := rtail, refRest := rrest }
   | _ => none
 
